@@ -17,6 +17,8 @@ TRUSTED = ['rustc MIR semantics of checked arithmetic (dev profile) for the curr
 
 def run(ctx, rep):
     facts = ctx.facts()
+    import fixtures
+    fixtures.run_controls(rep, ['E4'], lambda: ctx.reload())
     rep.rule('E4', e4_bitseq.__doc__.strip().split('\n')[0])
     e4_bitseq.run(facts, rep)
     rep.callsites += sum(len(facts.bodies[k].calls()) for k in rep.functions if k in facts.bodies)
